@@ -233,6 +233,9 @@ struct UpSt {
     children: RefCell<Vec<St>>,
     honest_remaining: Cell<usize>,
     err_at: Cell<usize>,
+    /// the upstream's size_hint is honest but not always exact: (remaining - slack_lo, remaining + slack_hi or None)
+    slack_lo: Cell<usize>,
+    slack_hi: Cell<usize>,
 }
 struct Upstream<T> {
     st: Rc<UpSt>,
@@ -280,7 +283,8 @@ impl<T> Stream for Upstream<T> {
     }
     fn size_hint(&self) -> (usize, Option<usize>) {
         let r = self.st.honest_remaining.get();
-        (r, Some(r))
+        let hi = self.st.slack_hi.get();
+        (r.saturating_sub(self.st.slack_lo.get()), if hi == usize::MAX { None } else { Some(r + hi) })
     }
 }
 fn upstream<T>(script: &[Up], mk: Box<dyn FnMut(usize, St) -> T>) -> (Upstream<T>, Rc<UpSt>) {
@@ -295,6 +299,8 @@ fn upstream<T>(script: &[Up], mk: Box<dyn FnMut(usize, St) -> T>) -> (Upstream<T
         children: RefCell::new(vec![]),
         honest_remaining: Cell::new(items),
         err_at: Cell::new(usize::MAX),
+        slack_lo: Cell::new(0),
+        slack_hi: Cell::new(0),
     });
     (Upstream { st: st.clone(), mk }, st)
 }
@@ -986,6 +992,12 @@ fn run_adapters(prop: &'static str, seed: u64, iters: usize) {
                 (Box::pin(FutStream(Some(Box::pin(f)))), st)
             }
         };
+        // the upstream's own hint: exact in two of three histories, otherwise loose (still honest)
+        if it % 3 == 1 {
+            ust.slack_lo.set(it % 4);
+            ust.slack_hi.set(if it % 5 == 0 { usize::MAX } else { 1 + it % 3 });
+            hist.push(format!("(upstream size_hint is loose: lower bound {} below, upper bound {} the number of items it will yield)", it % 4, if it % 5 == 0 { "absent instead of".to_string() } else { format!("{} above", 1 + it % 3) }));
+        }
         let mut yielded: Vec<usize> = vec![];
         let mut finished = false;
         let mut hints: Vec<(usize, usize, Option<usize>, usize)> = vec![];
@@ -1967,7 +1979,7 @@ fn main() {
             run_budget(prop);
             run_fairness(prop);
             run_merge(prop, seed, iters);
-            run_collections(prop, seed, iters / 2);
+            run_collections(prop, seed, iters);
         }
         "C18" => {
             run_alloc_unbounded(prop);
